@@ -15,6 +15,15 @@ CHECKS = {
  "C06": dict(level="fault_enumeration", engine="world",
    text="User-function failures injected as faults (error / temporary error / panic / out-of-range partition; persistent or one-shot; first row, vector boundary, last row, end-of-stream) at every user-function site of three template programs, on four executor configurations, enumerated completely and then re-sampled under other seeds; each case is its own OS process so a driver crash is observed as such. Oracle: Run returns an error carrying the injected marker (reader/writer errors, all panics), temporary one-shot failures do not fail the run, the session stays usable, no hang.",
    design="§6 C06", technique="deterministic simulation with fault injection: enumerated user-function fault cross product, process-isolated runs", note=WHOLE),
+ "C04": dict(level="exploration", engine="world",
+   text="Differential simulation: each generated program runs in 9 separately simulated worlds, one per execution strategy (local p=1/p=8, cluster 1x1 and 4x2, machine combiners, tiny vector size, tiny vector + sort canary + reader shuffling, Materialize/Procs/Exclusive pragmas, a random configuration), under seeded schedules; rows must equal the reference in every world and agree across the group; user counters must equal the model's call counts in every world.",
+   design="§6 C04", technique="deterministic simulation, configuration swarm, differential + reference-model oracle", note=WHOLE),
+ "C05": dict(level="exploration", engine="world",
+   text="Simulated distributed runs record (shard,key) right after every redistributing operator; co-location is an invariant of each run, and the key->shard table must agree across groups of 8 runs (separate OS processes) that differ in operator, producer count/kind, vector size, executor, cluster shape and seeds; thorough tier covers the full 8- and 16-bit key ranges. The quantification over key values is input enumeration carried by the simulator (said so in DESIGN).",
+   design="§6 C05", technique="deterministic simulation, cross-process placement-table agreement, invariant monitor", note=WHOLE),
+ "C08": dict(level="exploration", engine="world",
+   text="In every simulated cluster run the task graph compiled by each worker (read from the live worker through a tagged accessor) is compared with the driver's, with a recompilation and with a compilation after a gob round trip of the invocation; a well-formedness oracle stated from the property is evaluated on the driver graph; graph digests are compared across groups of 4 separately started processes with different seeded map/select orders.",
+   design="§6 C08", technique="deterministic simulation with seeded runtime randomness, invariant monitor on live driver/worker state, cross-process digest agreement", note=WHOLE),
 }
 
 NOT_APPLICABLE = {
